@@ -16,7 +16,6 @@ package internal
 
 import (
 	"iter"
-	"maps"
 	"net/http"
 	"net/textproto"
 	"strconv"
@@ -115,7 +114,16 @@ func directivesSeq2(s string) iter.Seq2[string, string] {
 // parseDirectives parses a string of cache directives and returns a map
 // where the keys are the directive names and the values are the arguments.
 func parseDirectives(s string) map[string]string {
-	return maps.Collect(directivesSeq2(s))
+	d := make(map[string]string)
+	for name, arg := range directivesSeq2(s) {
+		// "no-cache" without an argument covers the whole response: a second
+		// occurrence that names fields does not narrow it (RFC 9111 §5.2.2.4).
+		if old, seen := d[name]; seen && name == "no-cache" && old == "" {
+			continue
+		}
+		d[name] = arg
+	}
+	return d
 }
 
 func hasToken(d map[string]string, token string) bool {
@@ -135,7 +143,8 @@ func getDurationDirective(d map[string]string, token string) (dur time.Duration,
 // cacheControlValue combines all Cache-Control field lines into one list
 // (RFC 9110 §5.3).
 func cacheControlValue(header http.Header) string {
-	return strings.Join(header.Values("Cache-Control"), ",")
+	// (a caller may have written the field into the map under a non-canonical key)
+	return strings.Join(headerValues(header, "Cache-Control"), ",")
 }
 
 // CCRequestDirectives is a map of request directives from the Cache-Control
